@@ -220,7 +220,7 @@ func (w *c12tWatch) snapshot() (string, bool) {
 			st = st[:i]
 		}
 		switch st {
-		case "running", "runnable", "syscall":
+		case "running", "runnable", "syscall", "sleep": // sleep = wakes up on its own
 			parked = false
 		}
 		parts = append(parts, "g"+g.ID+" ["+st+"] "+c12tFrames(g.Stack))
